@@ -1,7 +1,7 @@
-// Command harness drives the bazel-remote implementation (built from /repo with -tags verif)
+// Package hlib is shared by the harness drivers under ../cmd: each driver drives the bazel-remote implementation (built from /repo with -tags verif)
 // on generated cases and writes (a) a Coq file in which the model is evaluated on the same
 // cases and (b) a JSON report with the direct-oracle verdicts and the measured distribution.
-package main
+package hlib
 
 import (
 	"encoding/json"
@@ -14,22 +14,22 @@ import (
 
 // ---- PRNG: every random choice derives from one splitmix64 state
 
-type rng struct{ s uint64 }
+type Rng struct{ S uint64 }
 
-func (r *rng) next() uint64 {
-	r.s += 0x9e3779b97f4a7c15
-	z := r.s
+func (r *Rng) Next() uint64 {
+	r.S += 0x9e3779b97f4a7c15
+	z := r.S
 	z = (z ^ (z >> 30)) * 0xbf58476d1ce4e5b9
 	z = (z ^ (z >> 27)) * 0x94d049bb133111eb
 	return z ^ (z >> 31)
 }
-func (r *rng) intn(n int) int       { return int(r.next() % uint64(n)) }
-func (r *rng) pick(xs []int64) int64 { return xs[r.intn(len(xs))] }
-func (r *rng) chance(pct int) bool   { return r.intn(100) < pct }
-func (r *rng) bytes(n int) []byte {
+func (r *Rng) Intn(n int) int        { return int(r.Next() % uint64(n)) }
+func (r *Rng) Pick(xs []int64) int64 { return xs[r.Intn(len(xs))] }
+func (r *Rng) Chance(pct int) bool   { return r.Intn(100) < pct }
+func (r *Rng) Bytes(n int) []byte {
 	b := make([]byte, n)
 	for i := 0; i < n; i += 8 {
-		v := r.next()
+		v := r.Next()
 		for j := 0; j < 8 && i+j < n; j++ {
 			b[i+j] = byte(v >> (8 * j))
 		}
@@ -39,13 +39,13 @@ func (r *rng) bytes(n int) []byte {
 
 // ---- report
 
-type oracleFailure struct {
+type OracleFailure struct {
 	Case int    `json:"case"`
 	What string `json:"what"`
 	Text string `json:"text"` // the case, human readable (the replay)
 }
 
-type report struct {
+type Report struct {
 	Driver         string          `json:"driver"`
 	Seed           uint64          `json:"seed"`
 	Cases          int             `json:"cases"`
@@ -53,24 +53,24 @@ type report struct {
 	Distinct       int             `json:"distinct_nontrivial"`
 	Rule           string          `json:"rule"`
 	Distribution   map[string]int  `json:"distribution"`
-	OracleFailures []oracleFailure `json:"oracle_failures"`
+	OracleFailures []OracleFailure `json:"oracle_failures"`
 	Samples        []string        `json:"samples"`
 	CaseTexts      []string        `json:"case_texts"` // one line per case (for replays)
 	distinctSet    map[string]bool
 }
 
-func newReport(driver string, seed uint64) *report {
-	return &report{Driver: driver, Seed: seed, Distribution: map[string]int{}, distinctSet: map[string]bool{}}
+func NewReport(driver string, seed uint64) *Report {
+	return &Report{Driver: driver, Seed: seed, Distribution: map[string]int{}, distinctSet: map[string]bool{}}
 }
-func (r *report) count(k string)          { r.Distribution[k]++ }
-func (r *report) distinct(canon string)   { r.distinctSet[canon] = true }
-func (r *report) fail(c int, what, text string) {
-	r.OracleFailures = append(r.OracleFailures, oracleFailure{c, what, text})
+func (r *Report) Count(k string)            { r.Distribution[k]++ }
+func (r *Report) DistinctCase(canon string) { r.distinctSet[canon] = true }
+func (r *Report) Fail(c int, what, text string) {
+	r.OracleFailures = append(r.OracleFailures, OracleFailure{c, what, text})
 }
-func (r *report) write(path string) {
+func (r *Report) Write(path string) {
 	r.Distinct = len(r.distinctSet)
 	if r.OracleFailures == nil {
-		r.OracleFailures = []oracleFailure{}
+		r.OracleFailures = []OracleFailure{}
 	}
 	b, _ := json.MarshalIndent(r, "", " ")
 	if err := os.WriteFile(path, b, 0644); err != nil {
@@ -80,23 +80,23 @@ func (r *report) write(path string) {
 
 // ---- Coq term printing
 
-func cz(n int64) string {
+func CZ(n int64) string {
 	if n < 0 {
 		return fmt.Sprintf("(%d)", n)
 	}
 	return fmt.Sprintf("%d", n)
 }
-func cu(n uint64) string { return fmt.Sprintf("%d", n) }
-func cs(s string) string { return "\"" + strings.ReplaceAll(s, "\"", "\"\"") + "\"" }
-func cb(b bool) string {
+func CU(n uint64) string { return fmt.Sprintf("%d", n) }
+func CS(s string) string { return "\"" + strings.ReplaceAll(s, "\"", "\"\"") + "\"" }
+func CB(b bool) string {
 	if b {
 		return "true"
 	}
 	return "false"
 }
-func clist(xs []string) string { return "[" + strings.Join(xs, "; ") + "]" }
+func CList(xs []string) string { return "[" + strings.Join(xs, "; ") + "]" }
 
-func sortedKeys(m map[string]int) []string {
+func SortedKeys(m map[string]int) []string {
 	var ks []string
 	for k := range m {
 		ks = append(ks, k)
@@ -107,7 +107,7 @@ func sortedKeys(m map[string]int) []string {
 
 // writeCases writes the Coq file: imports, the list of cases of the given type, and the
 // evaluation that prints the indices of mismatching cases.
-func writeCases(path, imports, caseType, okFn string, cases []string) {
+func WriteCases(path, imports, caseType, okFn string, cases []string) {
 	var sb strings.Builder
 	sb.WriteString("(* written by /verif/harness; evaluated by ./check *)\n")
 	sb.WriteString("From BR Require Import Base.Prelude " + imports + ".\n")
@@ -126,25 +126,16 @@ func writeCases(path, imports, caseType, okFn string, cases []string) {
 	}
 }
 
-type driverFn func(seed uint64, n int, outV, outJSON string, args []string)
+// DriverFn runs one driver: seed, number of cases, output .v file, output .json report, extra args.
+type DriverFn func(seed uint64, n int, outV, outJSON string, args []string)
 
-var drivers = map[string]driverFn{}
-
-func main() {
-	if len(os.Args) < 2 {
-		fmt.Fprintln(os.Stderr, "usage: harness <driver> -seed S -n N -out cases.v -json report.json")
-		os.Exit(2)
-	}
-	d, ok := drivers[os.Args[1]]
-	if !ok {
-		fmt.Fprintln(os.Stderr, "unknown driver", os.Args[1])
-		os.Exit(2)
-	}
-	fs := flag.NewFlagSet(os.Args[1], flag.ExitOnError)
+// Main parses the common flags and runs the driver.
+func Main(name string, d DriverFn) {
+	fs := flag.NewFlagSet(name, flag.ExitOnError)
 	seed := fs.Uint64("seed", 1, "PRNG seed")
 	n := fs.Int("n", 100, "number of cases")
 	outV := fs.String("out", "cases.v", "Coq cases file")
 	outJ := fs.String("json", "report.json", "JSON report")
-	_ = fs.Parse(os.Args[2:])
+	_ = fs.Parse(os.Args[1:])
 	d(*seed, *n, *outV, *outJ, fs.Args())
 }
